@@ -49,6 +49,10 @@ def num_print(t, v):
     return ("-" if v < 0 else " ") + body + " "
 
 
+LITERALS = [("-&H8000", "&", 32768), ("-&O100000", "&", 32768), ("- -32768", "&", 32768), ("-&H80000000", "#", 2147483648), ("-&O20000000000", "#", 2147483648),
+            ("- -2147483648", "#", 2147483648), ("&H8000", "%", -32768), ("&HFFFF", "%", -1), ("-&HFFFF", "%", 1), ("-&H8001", "%", 32767),
+            ("&H80000000", "&", -2147483648), ("-&H80000001", "&", 2147483647), ("-&H7FFFFFFF", "&", -2147483647), ("32768", "&", 32768), ("-32768", "%", -32768), ("-32769", "&", -32769),
+            ("2147483648", "#", 2147483648), ("-2147483648", "&", -2147483648), ("-2147483649", "#", -2147483649), ("- - -32768", "&", -32768), ("&O177777", "%", -1), ("-&O177777", "%", 1)]
 ROUTES = ["assign", "byval", "byref", "for_init", "for_limit", "read", "input", "input_file", "function_result", "array", "field", "const", "shared_in_sub"]
 OPS = ["+", "-", "*"]
 
@@ -100,6 +104,12 @@ def gen_cases(tier, seed):
         for n in (39, 45, 309, 400):
             for tail in ("", "!", "#", ".5", ".25#"):
                 cases.append({"kind": "special", "what": "huge_literal", "n": n, "tt": tt, "tail": tail})
+    # literals written at the edges of the whole-number types, stored directly (no source variable in between): hex / octal words
+    # whose negation leaves the type, double negations, the minima themselves
+    for lit, lt, lv in LITERALS:
+        for tt in TYPES:
+            for route in ("assign", "byval", "for_init", "for_limit", "array", "field", "const"):
+                cases.append({"kind": "literal", "lit": lit, "ts": lt, "v": lv, "tt": tt, "route": route})
     # random values inside the ranges
     nr = 4000 if tier == "quick" else 300000
     for _ in range(nr):
@@ -172,6 +182,8 @@ def build(case):
         return src, "", None, ("value", tt, r[1])
     ts, v, tt, route = case["ts"], case["v"], case["tt"], case["route"]
     setup = "S%s = %s\n" % (ts, value_expr(ts, v))
+    if case["kind"] == "literal":
+        setup = ""
     stdin = ""
     files = None
     try:
@@ -180,6 +192,8 @@ def build(case):
     except BasicError as e:
         exp = ("error", e.code)
     S, T = "S" + ts, "T" + tt
+    if case["kind"] == "literal":
+        S = case["lit"]
     if route == "assign":
         src = setup + "%s = %s\nPRINT %s\n" % (T, S, T)
     elif route == "byval":
@@ -221,7 +235,7 @@ def build(case):
     elif route == "field":
         src = "TYPE Rec\nBefore AS INTEGER\nF AS %s\nAfter AS INTEGER\nEND TYPE\nDIM R AS Rec\n" % TYPE_NAME[tt] + setup + "R.F = %s\nPRINT R.F\n" % S
     elif route == "const":
-        src = "CONST K%s = %s\nPRINT K%s\n" % (tt, value_expr(ts, v), tt)
+        src = "CONST K%s = %s\nPRINT K%s\n" % (tt, S if case["kind"] == "literal" else value_expr(ts, v), tt)
         if exp[0] == "error":
             exp = ("lint_or_error", exp[1])
     else:
